@@ -42,7 +42,7 @@ def t_matrix():
     return sympy.Matrix(
         [
             [1, 0],
-            [0, sympy.exp(1j * np.pi / 4)],
+            [0, sympy.exp(sympy.I * sympy.pi / 4)],
         ]
     )
 
